@@ -4,6 +4,9 @@ LEVEL = "other"
 CONTRACT_MODULES = ["contracts.sorting", "contracts.refcount", "contracts.tasks", "contracts.tasks_proto"]
 FUNCTIONS = ["_dfs", "toposort", "Manager.find_taskids", "Manager.find_tasks", "Manager.register", "Manager.unregister",
              "Manager.run_tasks", "Manager.run_tasks@consistency", "Manager.set_value", "ExprTask.run", "ExprTask.__init__"]
+# functions of other properties' configurations that an assignment through a reference goes through: the in-place operators (C04) and the
+# dependency walkers (C05)
+BORROW = [('C04', ['MutableRef.__iadd__', 'MutableRef.__isub__', 'MutableRef.__imul__', 'MutableRef.__imatmul__', 'MutableRef.__itruediv__', 'MutableRef.__ifloordiv__', 'MutableRef.__imod__', 'MutableRef.__ipow__', 'MutableRef.__ilshift__', 'MutableRef.__irshift__', 'MutableRef.__iand__', 'MutableRef.__ior__', 'MutableRef.__ixor__', 'AttrRef._set_value', 'ItemRef._set_value']), ('C05', ['MutableRef._get_dependencies', 'Ref._get_dependencies', 'BinOpExpr._get_dependencies', 'UnaryOpExpr._get_dependencies', 'LiteralExpr._get_dependencies', 'BuiltinRef._get_dependencies', 'CallRef._get_dependencies'])]
 RAC = "rac/c01.py"
 RAC_BUDGET = {"quick": 70, "thorough": 1200}
 RAC_MIN = {"quick": 2943, "thorough": 2943}      # fewer run-time evaluations than this = the harness skipped its work: checker broken, not "held"
